@@ -189,7 +189,8 @@ def Ty.ok : Ty → Bool
        | _ => false)
 
 /-- resolver rule: only optional fields or structs can be pointers -/
-def Field.ok (f : Field) : Bool := f.ty.ok && (!f.ty.isPtr || f.ty.isStructPtr || f.req == .optional)
+def Field.ok (f : Field) : Bool :=
+  f.ty.ok && (!f.ty.isPtr || f.ty.isStructPtr || f.req == .optional) && (!f.nocopy || f.ty.tt == .string)
 def SDesc.ok (sd : SDesc) : Bool := sd.fields.all Field.ok
 def Schema.ok (S : Schema) : Bool := S.all SDesc.ok
 
